@@ -379,11 +379,52 @@ func registerSprintf(n int) {
 func init() {
 	// hclog.Default() never returns nil.
 	intrinsics["github.com/hashicorp/go-hclog.Default"] = func(e *Exec, st *State, fr *Frame, a []Value, in ssa.Instruction) Value {
-		v := e.materialize(e.fresh("hclogDefault", BoolSort).S, in.(ssa.Value).Type())
+		v := e.materialize(e.freshName("hclogDefault"), in.(ssa.Value).Type())
 		if vi, ok := v.(VIface); ok {
 			vi.Nil = False
 			return vi
 		}
 		return v
 	}
+}
+
+func init() {
+	// metrics.Collector: per-name ghost counters/gauges (names are literals at
+	// every call site, see the static C20 obligations)
+	ifaceIntrinsics["metrics.Collector.IncrementCounter"] = func(e *Exec, st *State, fr *Frame, recv Value, a []Value, in ssa.Instruction) Value {
+		st.Trace = append(st.Trace, "call:metrics.Collector.IncrementCounter")
+		name, ok := a[0].(VStr)
+		d, ok2 := a[1].(VInt)
+		if ok && ok2 && name.Lit != nil {
+			key := "counter:" + *name.Lit
+			cur := e.counterGet(st, key)
+			st.Ghost[key] = VInt{T: BVBin("bvadd", cur.T, d.T)}
+			st.Writes["ghost:"+key] = true
+		}
+		return nil
+	}
+	ifaceIntrinsics["metrics.Collector.SetGauge"] = func(e *Exec, st *State, fr *Frame, recv Value, a []Value, in ssa.Instruction) Value {
+		st.Trace = append(st.Trace, "call:metrics.Collector.SetGauge")
+		return nil
+	}
+	specFuncs["counter"] = func(env *Env, n *ECall) Value {
+		s, ok := n.Args[0].(*EStr)
+		if len(n.Args) != 1 || !ok {
+			env.fail("counter expects a string literal")
+		}
+		return env.e.counterGet(env.st, "counter:"+s.V)
+	}
+	// bytes.Buffer as used by WAL.StoreLogs: an opaque byte sink; Bytes()
+	// yields an arbitrary fresh slice
+	intrinsics["(*bytes.Buffer).Bytes"] = func(e *Exec, st *State, fr *Frame, a []Value, in ssa.Instruction) Value {
+		v := e.materialize(e.freshName("bufbytes"), types.NewSlice(types.Typ[types.Uint8]))
+		return v
+	}
+}
+
+func (e *Exec) counterGet(st *State, key string) VInt {
+	if v, ok := st.Ghost[key]; ok {
+		return v.(VInt)
+	}
+	return VInt{T: e.declare(key, BV64)}
 }
